@@ -109,6 +109,10 @@ func (P *Prog) verifyFunc(key string, c11 bool) (res *FuncResult) {
 		for _, c := range spec.Requires {
 			x.em.assume(x.evalBool(env, c.Expr))
 		}
+		for _, c := range spec.EntryAssumes {
+			x.em.assume(x.evalBool(env, c.Expr))
+			x.assumedClauses[key+" (at entry) ["+c.Label+"]: "+c.Src] = true
+		}
 	}
 	if spec != nil {
 		for _, gs := range spec.GhostSets {
